@@ -858,13 +858,17 @@ class Preempter:
     inside a frame of one of `codes` whose `self` is `shared` (the traced function) and, with
     `deep`, in every frame below it whose code lives under the directory `deep` (the library:
     everything the traced function calls).  stop_at=None: only count the events.
-    `frame_locals` are the locals of the traced function's frame at the stop.
+    `frame_locals` are the locals of the innermost frame of one of `watch` (default: `codes`) whose `self` is `shared`,
+    active at the stop or, if none is active, completed before it (the function whose local state is observed may be
+    a callee of the traced region, e.g. the table construction inside a whole multiplication).
     interrupt=True: instead of being parked the thread gets the exception Interrupt at that event.
     No method of this class blocks for ever or raises because the traced code hangs: run_to_stop / run_to_end
     return after their timeout with `hung` set."""
 
-    def __init__(self, fn, codes, shared, stop_at, opcode=False, deep=None, interrupt=False):
+    def __init__(self, fn, codes, shared, stop_at, opcode=False, deep=None, interrupt=False, watch=None):
         self.fn, self.codes, self.shared, self.stop_at, self.opcode = fn, set(codes), shared, stop_at, opcode
+        self.watch = set(watch) if watch is not None else set(codes)
+        self.watching = []
         self.deep = deep
         self.interrupt = interrupt
         self.hung = False
@@ -886,36 +890,51 @@ class Preempter:
         if event != "call":
             return None
         code = frame.f_code
-        if code in self.codes and frame.f_locals.get("self") is self.shared:
-            self.targets.append(frame)
+        mine = frame.f_locals.get("self") is self.shared
+        if code in self.codes and (mine or any(v is self.shared for v in frame.f_locals.values())):
+            self.targets.append(frame)          # the shared object is `self` or an argument (G.mul_add(a, shared, b))
         elif not (self.deep and self.targets and code.co_filename.startswith(self.deep)):
+            if code in self.watch and mine:     # outside the region: only remember its locals when it returns
+                self.watching.append(frame)
+                return self._watch_only
             return None
+        if code in self.watch and mine:
+            self.watching.append(frame)
         if self.opcode:
             frame.f_trace_opcodes = True
         return self._local
+
+    def _watch_only(self, frame, event, arg):
+        if event == "return" and self.watching and frame is self.watching[-1]:
+            self.prev_locals.update(frame.f_locals)     # (a later invocation that returns at once does not forget the list)
+            self.watching.pop()
+        return self._watch_only
 
     def _local(self, frame, event, arg):
         if event == ("opcode" if self.opcode else "line"):
             if self.stop_at is not None and self.count == self.stop_at and not self.stopped:
                 self.stopped = True
-                self.frame_locals = dict(self.targets[-1].f_locals) if self.targets else {}
-                for k, v in self.prev_locals.items():       # an earlier, completed invocation of the traced function
+                self.frame_locals = dict(self.watching[-1].f_locals) if self.watching else {}
+                for k, v in self.prev_locals.items():       # an earlier, completed invocation of the watched function
                     self.frame_locals.setdefault(k, v)
                 self.lineno = frame.f_lineno
                 self.where = frame.f_code.co_name
                 if self.interrupt:
-                    self.targets = []
+                    self.targets, self.watching = [], []
                     raise Interrupt()           # (a trace function that raises is unset by the interpreter)
                 self.at_stop.set()
                 if not self.resume.wait(TIMEOUT * 20):
                     raise SchedAbort()
                 sys.settrace(None)
-                self.targets = []
+                self.targets, self.watching = [], []
                 return None
             self.count += 1
-        elif event == "return" and self.targets and frame is self.targets[-1]:
-            self.prev_locals = dict(frame.f_locals)
-            self.targets.pop()
+        elif event == "return":
+            if self.watching and frame is self.watching[-1]:
+                self.prev_locals.update(frame.f_locals)     # (a later invocation that returns at once does not forget the list)
+                self.watching.pop()
+            if self.targets and frame is self.targets[-1]:
+                self.targets.pop()
         return self._local
 
     def _main(self):
